@@ -65,7 +65,11 @@ func parent() {
 	if err != nil {
 		run.Fatal("MkdirTemp: %v", err)
 	}
-	defer os.RemoveAll(tmp)
+	cleanup := func() { _ = os.RemoveAll(tmp) } // explicit: Finish / Fatal leave through os.Exit
+	fatal := func(format string, a ...any) {
+		cleanup()
+		run.Fatal(format, a...)
+	}
 	type res struct {
 		code int
 		out  bytes.Buffer
@@ -100,13 +104,13 @@ func parent() {
 			// harness failure or death of a shard (an uncaught panic / fatal error in library code is on stderr,
 			// where the driver classifies it)
 			fmt.Printf("shard %d: exit code %d\n%s\n", i, r.code, r.out.String())
-			run.Fatal("shard %d of %d exited with code %d", i, n, r.code)
+			fatal("shard %d of %d exited with code %d", i, n, r.code)
 		}
 		var ev childEvidence
 		dec := json.NewDecoder(bytes.NewReader(b))
 		dec.UseNumber() // samples carry 64-bit seeds
 		if err := dec.Decode(&ev); err != nil {
-			run.Fatal("shard %d: bad evidence: %v", i, err)
+			fatal("shard %d: bad evidence: %v", i, err)
 		}
 		evaluations += ev.Coverage.Evaluations
 		for k, v := range ev.Coverage.Counters {
@@ -147,7 +151,7 @@ func parent() {
 		f, err := os.Open(filepath.Join(tmp, fmt.Sprintf("h-%d.bin", i)))
 		if err != nil {
 			if r.code == 0 {
-				run.Fatal("shard %d: no hash file: %v", i, err)
+				fatal("shard %d: no hash file: %v", i, err)
 			}
 			continue // a shard that aborted on a hang does not write one
 		}
@@ -161,6 +165,8 @@ func parent() {
 		}
 		_ = f.Close()
 	}
+
+	cleanup()
 
 	nCov := run.Get("start-values-covered")
 	run.Extra("start_values_covered", nCov)
